@@ -11,6 +11,7 @@ def run(ctx, model):
     logixdrv.run_tagdb(ctx, model, "C05")
     # LogixDriver.open() as a whole == its Lean model (Logix/Open.lean): frames, outcome, tag database, info, target state
     logixdrv.run_open(ctx, model, "C05")
+    logixdrv.run_reupload(ctx, model, "C05")
     from props import kernels
     kernels.run_filter(ctx, model, "C05")
     kernels.run_upload_parsers(ctx, model, "C05")
